@@ -107,6 +107,8 @@ func init() {
 				Edits: []Edit{{File: "driver/netconf/driver.go", Old: "Logger:        gd.Logger,\n", New: ""}}},
 			{ID: "C19-platform-wrong-option", Desc: "platform pty height feeds the width option", Rule: "C19/O7",
 				Edits: []Edit{{File: "platform/options.go", Old: "opts[i] = options.WithTermHeight(intVal)", New: "opts[i] = options.WithTermWidth(intVal)"}}},
+			{ID: "C19-platform-truncated-seconds", Desc: "platform readDelay truncated to whole seconds before scaling", Rule: "C19/O7",
+				Edits: []Edit{{File: "platform/options.go", Old: "opts[i] = options.WithReadDelay(\n\t\t\t\ttime.Duration(floatVal * float64(time.Second)),\n\t\t\t)", New: "opts[i] = options.WithReadDelay(time.Duration(floatVal) * time.Second)"}}},
 			{ID: "C19-side-effect", Desc: "telnet transport type also rewrites the failure strings", Rule: "C19/O3",
 				Edits: []Edit{{File: "driver/options/generic.go", Old: "d.TransportType = transportType\n", New: "d.TransportType = transportType\n\t\t\td.FailedWhenContains = nil\n"}}},
 		},
@@ -763,6 +765,39 @@ func checkPlatformOptionSwitch(c *Ctx, r *Report) {
 			}
 			return true
 		})
+		// a float (seconds) value must be scaled before it is converted to an integer type: converting the bare
+		// value first truncates fractional seconds (0.5 -> 0)
+		if asserted == "float64" && assertedObj != nil {
+			ast.Inspect(cc, func(n ast.Node) bool {
+				call, ok := n.(*ast.CallExpr)
+				if !ok || len(call.Args) != 1 {
+					return true
+				}
+				tv, ok := p.TypesInfo.Types[call.Fun]
+				if !ok || !tv.IsType() {
+					return true
+				}
+				bt, ok := tv.Type.Underlying().(*types.Basic)
+				if !ok || bt.Info()&types.IsInteger == 0 {
+					return true
+				}
+				at, ok := p.TypesInfo.TypeOf(call.Args[0]).Underlying().(*types.Basic)
+				if !ok || at.Info()&types.IsFloat == 0 || !mentions(p, call.Args[0], assertedObj, cc, 0) {
+					return true
+				}
+				scaled := false
+				ast.Inspect(call.Args[0], func(m ast.Node) bool {
+					if be, ok := m.(*ast.BinaryExpr); ok && be.Op == token.MUL {
+						scaled = true
+					}
+					return true
+				})
+				if !scaled {
+					problems = append(problems, fmt.Sprintf("the float value is converted to %s before it is scaled: the fractional part of the definition's value is lost (0.5 becomes 0)", types.TypeString(tv.Type, nil)))
+				}
+				return true
+			})
+		}
 		want, known := specPlatformOptions[name]
 		switch {
 		case len(produced) == 0:
